@@ -438,6 +438,46 @@ fn runs_family(tier: Tier, shard: usize, nshards: usize, ctx: &mut Ctx) {
     }
 }
 
+/// many superblocks: 31..100 chunks (select switches search strategy with the number of
+/// superblocks), chunk shapes alternating between every ordered pair of the six shapes
+fn many_superblocks_family(tier: Tier, shard: usize, nshards: usize, ctx: &mut Ctx) {
+    let mut plain: Vec<bool> = Vec::new();
+    let mut idx = 0usize;
+    let counts: &[usize] = tier.pick(&[31, 32, 33, 34, 65], &[31, 32, 33, 34, 40, 64, 65, 100, 129]);
+    for &chunks in counts {
+        for sa in 0..CHUNK_SHAPES {
+            for sb in 0..CHUNK_SHAPES {
+                idx += 1;
+                if idx % nshards != shard {
+                    continue;
+                }
+                for &k in tier.pick(&[1usize][..], &[1usize, 2][..]) {
+                    let s = 32 * k;
+                    for (t, fill) in [(0usize, 0usize), (9, 2), (s - 1, 1)] {
+                        plain.clear();
+                        for c in 0..chunks {
+                            // period 2, with a third shape every seventh chunk
+                            let sh = if c % 7 == 6 { (sa + sb + 1) % CHUNK_SHAPES } else if c % 2 == 0 { sa } else { sb };
+                            push_chunk(&mut plain, sh, s);
+                        }
+                        for i in 0..t {
+                            plain.push(match fill {
+                                0 => false,
+                                1 => true,
+                                _ => i % 2 == 1,
+                            });
+                        }
+                        rs_case(ctx, &plain, k, false);
+                    }
+                }
+                if ctx.res.capped {
+                    return;
+                }
+            }
+        }
+    }
+}
+
 /// large superblock factors: a superblock of 32k bits holds more than 255 one-bits once k >= 8,
 /// so per-superblock partial counts no longer fit a byte
 const BIG_KS: [usize; 6] = [8, 9, 16, 33, 64, 100];
@@ -599,6 +639,7 @@ impl Prop for C17Prop {
             "runs": {"chunks": format!("0..={} of 32k bits, 6 shapes each", run_chunks_max(tier)),
                      "tails": "0 | 1 bit (0,1) | 7, 9, 32k-1 bits (zeros, ones, 0101..)", "k": run_ks(tier)},
             "big_k": {"k": BIG_KS, "chunks": format!("0..={}", tier.pick(2, 3))},
+            "many_superblocks": {"chunks": tier.pick("31,32,33,34,65", "31,32,33,34,40,64,65,100,129"), "shapes": "every ordered pair of the 6 chunk shapes alternating, a third shape every 7th chunk", "k": tier.pick("1", "1,2"), "tails": "0 | 9 bits 0101.. | 32k-1 ones"},
             "queries": "every i in 0..=n+1 and u64::MAX; every j in 0..=n+1 and u64::MAX",
             "aliases_and_accessors": "k() and bits().len() in every case; rank(i) for every i queried with rank_1, select(j) for every j queried with select_1, bits() bit by bit in every case of the small, runs and big_k families and in the k = 1 cases of the bytes family",
             "wavelet": {"alphabet": "A,C,G,T,N,$", "text_len": format!("1..={}", wm_max(tier)),
@@ -624,7 +665,8 @@ impl Prop for C17Prop {
         u -= BYTES_SHARDS;
         if u < RUNS_SHARDS {
             runs_family(tier, u, RUNS_SHARDS, ctx);
-            return bigk_family(tier, u, RUNS_SHARDS, ctx);
+            bigk_family(tier, u, RUNS_SHARDS, ctx);
+            return many_superblocks_family(tier, u, RUNS_SHARDS, ctx);
         }
         u -= RUNS_SHARDS;
         if u < WM_SHARDS {
